@@ -64,8 +64,12 @@ SAcc(kind, f)     == [op |-> "acc", kind |-> kind, f |-> f] \* "group": Group([P
 SFill(c)          == [op |-> "fill", c |-> c]         \* Fill(c)
 SBind(name, c)    == [op |-> "bind", name |-> name, c |-> c]   \* S(name=Spec(c))
 SRead(name)       == [op |-> "read", name |-> name]   \* S[name]
-NoDefault         == [has |-> FALSE, v |-> VNone]
-Default(v)        == [has |-> TRUE, v |-> v]
+SArgList(c)       == [op |-> "arglist", c |-> c]      \* a list ARGUMENT holding sub-specs: default=[s1, s2] (rebuilt per evaluation)
+SInvoke(c, k, v)  == [op |-> "invoke", c |-> c, k |-> k, v |-> v]   \* Invoke(kwfn).star(kwargs=c).constants(k=v); kwfn(**kw) = dict(kw)
+\* Coalesce default: none, a constant (d.v), or a list argument with sub-specs (d.s = <<SArgList(..)>>)
+NoDefault         == [has |-> FALSE, v |-> VNone, s |-> <<>>]
+Default(v)        == [has |-> TRUE, v |-> v, s |-> <<>>]
+DefaultArgs(c)    == [has |-> TRUE, v |-> VNone, s |-> <<SArgList(c)>>]
 Call(t, sc, sid, spec) == [t |-> t, sc |-> sc, sid |-> sid, spec |-> spec]
 
 \* ---- errors, outcomes, observations ---------------------------------------------------
@@ -101,9 +105,13 @@ ApplyF(f, t) ==
     [] OTHER      -> Exc("UNMODELLED")
 
 \* registrations the environment may make on the default registry
-RegDefs == << [r |-> "Aget1", ty |-> "A", op |-> "get", h |-> "h1"],
-              [r |-> "Aget2", ty |-> "A", op |-> "get", h |-> "h2"],
-              [r |-> "Aiter", ty |-> "A", op |-> "iterate", h |-> "itvals"] >>
+\* (exact = TRUE: register(.., exact=True), the type is entered in the type map only, not in the
+\* subtype tree; each registration names ONE op, the other ops of the type keep their handler)
+RegDefs == << [r |-> "Aget1", ty |-> "A", op |-> "get", h |-> "h1", exact |-> FALSE],
+              [r |-> "Aget2", ty |-> "A", op |-> "get", h |-> "h2", exact |-> FALSE],
+              [r |-> "Aiter", ty |-> "A", op |-> "iterate", h |-> "itvals", exact |-> FALSE],
+              [r |-> "Aget3x", ty |-> "A", op |-> "get", h |-> "h3", exact |-> TRUE],
+              [r |-> "Aiterx", ty |-> "A", op |-> "iterate", h |-> "itrev", exact |-> TRUE] >>
 RegNames == {RegDefs[i].r : i \in 1..Len(RegDefs)}
 RegOf(r) == RegDefs[CHOOSE i \in 1..Len(RegDefs) : RegDefs[i].r = r]
 
@@ -131,10 +139,12 @@ HGet(h, cur, seg) ==
     [] h = "getattr" -> AttrOf(cur, seg)
     [] h = "h1"      -> LET r == AttrOf(cur, seg) IN IF r.ok THEN Ok(Bump(r.v, 10)) ELSE r
     [] h = "h2"      -> LET r == AttrOf(cur, seg) IN IF r.ok THEN Ok(Bump(r.v, 20)) ELSE r
+    [] h = "h3"      -> LET r == AttrOf(cur, seg) IN IF r.ok THEN Ok(Bump(r.v, 30)) ELSE r
     [] OTHER         -> Exc("UNMODELLED")
 IterItems(h, t) ==
   CASE h = "iter"   -> IF t.k = "dict" THEN [i \in 1..Len(t.v) |-> t.v[i][1]] ELSE t.v
     [] h = "itvals" -> [i \in 1..Len(t.v) |-> t.v[i][2]]
+    [] h = "itrev"  -> [i \in 1..Len(t.v) |-> t.v[Len(t.v) + 1 - i][2]]
     [] OTHER        -> <<>>
 \* children of a dict / attribute object as the wildcard sees them (keys handler, then the
 \* 'get' handler per key)
@@ -181,6 +191,7 @@ WalkKids(steps, j, kids, regs, at, acc) ==
        ELSE WalkKids(steps, j, Tail(kids), regs, at, acc)
 
 Sub(at, k) == Append(at, k)
+IsStrDict(v) == v.k = "dict" /\ \A i \in 1..Len(v.v) : v.v[i][1].k = "str"
 
 Ev(n, at, t, env) ==
   CASE n.op = "path" ->
@@ -227,6 +238,13 @@ Ev(n, at, t, env) ==
     [] n.op = "bind" -> LET r == Ev(n.c, Sub(at, 1), t, env) IN
                         IF r.ok THEN Res(TRUE, t, NoErr, r.obs, <<n.name, r.v>>) ELSE r
     [] n.op = "read" -> IF HasKey(env.vis, n.name) THEN Good(Lookup(env.vis, n.name), <<>>) ELSE Bad(PAE(at), <<>>)
+    [] n.op = "arglist" ->                                             \* argument mode: a new list per evaluation
+         LET r == EvAll(n.c, 1, at, t, env, <<>>, <<>>) IN IF r.ok THEN Good(VList(r.v), r.obs) ELSE r
+    [] n.op = "invoke" ->                                              \* kwfn(**<value of c>, k=v): a new dict
+         LET r == Ev(n.c, Sub(at, 1), t, env) IN
+         IF ~r.ok THEN [r EXCEPT !.b = <<>>]
+         ELSE IF ~IsStrDict(r.v) THEN Bad(Unmodelled(at), r.obs)
+         ELSE Good(VDict(SetKey(r.v.v, VStr(n.k), n.v)), r.obs)
     [] OTHER -> Bad(Unmodelled(at), <<>>)
 
 \* (s1, s2, ..) in Auto mode: each step's result is the next step's target; a binding made
@@ -248,7 +266,11 @@ EvMap(c, cat, items, i, env, acc, obs) ==
        IF ~r.ok THEN Bad(r.e, obs \o r.obs) ELSE EvMap(c, cat, items, i + 1, env, Append(acc, r.v), obs \o r.obs)
 \* Coalesce: first alternative that does not fail with a GlomError; else default; else error
 EvCoal(n, i, at, t, env, obs) ==
-  IF i > Len(n.c) THEN (IF n.d.has THEN Good(n.d.v, obs) ELSE Bad(Err("CoalesceError", TRUE, at, <<>>), obs))
+  IF i > Len(n.c) THEN
+    (IF ~n.d.has THEN Bad(Err("CoalesceError", TRUE, at, <<>>), obs)
+     ELSE IF n.d.s = <<>> THEN Good(n.d.v, obs)
+     ELSE LET r == Ev(n.d.s[1], Sub(at, Len(n.c) + 1), t, env) IN      \* an error in the default is not caught
+          IF r.ok THEN Good(r.v, obs \o r.obs) ELSE Bad(r.e, obs \o r.obs))
   ELSE LET r == Ev(n.c[i], Sub(at, i), t, env) IN
        IF r.ok THEN Good(r.v, obs \o r.obs)
        ELSE IF r.e.ge /\ r.e.cls # "UNMODELLED" THEN EvCoal(n, i + 1, at, t, env, obs \o r.obs)
@@ -308,9 +330,10 @@ RECURSIVE NodeAt(_, _)
 NodeAt(n, path) ==
   IF path = <<>> THEN n
   ELSE LET k == Head(path)  rest == Tail(path) IN
-    CASE n.op \in {"tuple", "coal"}        -> NodeAt(n.c[k], rest)
+    CASE n.op \in {"tuple", "arglist"}     -> NodeAt(n.c[k], rest)
+      [] n.op = "coal"                     -> NodeAt(IF k <= Len(n.c) THEN n.c[k] ELSE n.d.s[1], rest)
       [] n.op = "dict"                     -> NodeAt(n.items[k][2], rest)
-      [] n.op \in {"each", "fill", "bind"} -> NodeAt(n.c, rest)
+      [] n.op \in {"each", "fill", "bind", "invoke"} -> NodeAt(n.c, rest)
       [] n.op = "acc"                      -> IF n.kind = "group" THEN SProbe(n.f) ELSE SOpcall(n.f)
 NodeOf(P, f) == IF f.op = "call" THEN [op |-> "call", call |-> P.calls[f.lvl]]
                 ELSE NodeAt(P.calls[f.lvl].spec, f.at)
@@ -406,10 +429,12 @@ MEach(P, G, f, n) ==
 
 MCoal(P, G, f, n) ==
   CASE P.ctl = "eval" ->
-         IF f.i = Len(n.c)
-         THEN X(IF n.d.has THEN Ret(P, n.d.v) ELSE Raise(P, Err("CoalesceError", TRUE, f.at, <<>>)), G)
-         ELSE X(Child(P, f, n.c[f.i + 1], f.i + 1, f.t, f.vis, <<>>), G)
+         IF f.i < Len(n.c) THEN X(Child(P, f, n.c[f.i + 1], f.i + 1, f.t, f.vis, <<>>), G)
+         ELSE IF ~n.d.has THEN X(Raise(P, Err("CoalesceError", TRUE, f.at, <<>>)), G)
+         ELSE IF n.d.s = <<>> THEN X(Ret(P, n.d.v), G)
+         ELSE X(Child(P, [f EXCEPT !.ph = 1], n.d.s[1], Len(n.c) + 1, f.t, f.vis, <<>>), G)   \* arg_val(target, default, scope)
     [] P.ctl = "ret" -> X(Ret(P, P.v), G)
+    [] f.ph = 1 -> X(Raise(P, P.e), G)                            \* raised while building the default: not caught
     [] OTHER -> IF P.e.ge /\ P.e.cls # "UNMODELLED"              \* except self.skip_exc (= GlomError)
                 THEN X(Eval(P, [f EXCEPT !.i = @ + 1]), G)
                 ELSE X(Raise(P, P.e), G)
@@ -442,6 +467,19 @@ MFill(P, G, f, n) ==
 MBind(P, G, f, n) ==
   CASE f.ph = 0 -> X(Child(P, [f EXCEPT !.ph = 1], n.c, 1, f.t, f.vis, <<>>), G)
     [] P.ctl = "ret" -> X(RetB(P, f.t, <<n.name, P.v>>), G)     \* scope.update({name: value}); returns target
+    [] OTHER -> X(Raise(P, P.e), G)
+
+MArgList(P, G, f, n) ==
+  CASE P.ctl = "eval" ->
+         IF f.i = Len(n.c) THEN X(Ret(P, VList(f.acc)), G)
+         ELSE X(Child(P, f, n.c[f.i + 1], f.i + 1, f.t, f.vis, <<>>), G)
+    [] P.ctl = "ret" -> X(Eval(P, [f EXCEPT !.i = @ + 1, !.acc = Append(@, P.v)]), G)
+    [] OTHER -> X(Raise(P, P.e), G)
+
+MInvoke(P, G, f, n) ==
+  CASE f.ph = 0 -> X(Child(P, [f EXCEPT !.ph = 1], n.c, 1, f.t, f.vis, <<>>), G)
+    [] P.ctl = "ret" ->        \* all_kwargs = {}; all_kwargs.update(<star kwargs>); all_kwargs.update(constants); func(**all_kwargs)
+         X(IF IsStrDict(P.v) THEN Ret(P, VDict(SetKey(P.v.v, VStr(n.k), n.v))) ELSE Raise(P, Unmodelled(f.at)), G)
     [] OTHER -> X(Raise(P, P.e), G)
 
 MRead(P, G, f, n) ==
@@ -501,6 +539,8 @@ Micro(P, G) ==
     [] op = "fill"  -> MFill(P, G, f, n)
     [] op = "bind"  -> MBind(P, G, f, n)
     [] op = "read"  -> MRead(P, G, f, n)
+    [] op = "arglist" -> MArgList(P, G, f, n)
+    [] op = "invoke" -> MInvoke(P, G, f, n)
     [] op = "path"  -> MPath(P, G, f, n)
     [] OTHER        -> X(Raise(P, Unmodelled(f.at)), G)
 
